@@ -187,6 +187,8 @@ class _VersionIndependentUnmarshaller:
         # id(container) -> (nodes visited when hashing it, depth, the container), see check_hash_cost()
         self.hash_cost = {}
         self.hashed_nodes = 0
+        # (id(co_localsplusnames), id(co_localspluskinds)) -> split tables, see t_code()
+        self.localsplus_split = {}
         self.version_tuple = tuple()
         self.is_graal = False
         self.is_pypy = False
@@ -622,20 +624,31 @@ class _VersionIndependentUnmarshaller:
             CO_FAST_FREE = 0x80
 
             # Collect in lists: growing tuples with "+=" is quadratic, and both
-            # tables can be back-references to one large object.
-            varnames, cellvars, freevars = [], [], []
-            for name, kind in zip(co_localsplusnames, co_localspluskinds):
-                if kind & CO_FAST_LOCAL:
-                    varnames.append(name)
-                    if kind & CO_FAST_CELL:
+            # tables can be back-references to one large object.  In that case
+            # all the code objects that refer to it share the split result too,
+            # instead of each keeping its own copy.
+            split_key = (id(co_localsplusnames), id(co_localspluskinds))
+            split = self.localsplus_split.get(split_key)
+            if split is None:
+                varnames, cellvars, freevars = [], [], []
+                for name, kind in zip(co_localsplusnames, co_localspluskinds):
+                    if kind & CO_FAST_LOCAL:
+                        varnames.append(name)
+                        if kind & CO_FAST_CELL:
+                            cellvars.append(name)
+                    elif kind & CO_FAST_CELL:
                         cellvars.append(name)
-                elif kind & CO_FAST_CELL:
-                    cellvars.append(name)
-                elif kind & CO_FAST_FREE:
-                    freevars.append(name)
-            co_varnames = tuple(varnames)
-            co_cellvars = tuple(cellvars)
-            co_freevars = tuple(freevars)
+                    elif kind & CO_FAST_FREE:
+                        freevars.append(name)
+                # the two tables are kept so that their ids stay theirs
+                split = self.localsplus_split[split_key] = (
+                    tuple(varnames),
+                    tuple(cellvars),
+                    tuple(freevars),
+                    co_localsplusnames,
+                    co_localspluskinds,
+                )
+            co_varnames, co_cellvars, co_freevars = split[:3]
 
             co_nlocals = len(co_varnames)
             co_filename = self.r_object(bytes_for_s=bytes_for_s)
